@@ -45,6 +45,28 @@ def generate(ctx):
             pp.append(p)
         yield "pd", dict(case=case, meta=meta, perm=perm, pperm=pp, who=[ctx.rng.randrange(len(t)) for t in case["teams"]],
                          step0=10 ** ctx.rng.uniform(-3, 0.5))
+    # configuration lattice for the supremum of the two-team form (complete in both tiers, sharded): two level teams of
+    # (nearly) certain players under every combination of skill unit, beta multiplier and kappa - incl. kappa far above beta
+    # (unit 1e-3 with kappa 1e-2), where a margin or variance floor borrowed from rate() would push the value out of [0, 1]
+    from ..util import MODEL_NAMES as _MN
+
+    idx = 0
+    for m_ in _MN:
+        for scale in (1e-3, 1e-2, 1.0, 1e3):
+            for bm in (0.25, 1.0, 3.0):
+                for kappa in (1e-6, 1e-4, 1e-2):
+                    for n_ in (1, 2):
+                        idx += 1
+                        if idx % ctx.nshards != ctx.shard:
+                            continue
+                        beta = 25.0 / 6.0 * scale * bm
+                        cfg = dict(mu=25.0 * scale, sigma=25.0 / 3.0 * scale, beta=beta, kappa=kappa, tau=25.0 / 300.0 * scale,
+                                   limit_sigma=False, gamma="default")
+                        sg = ctx.rng.choice([0.0, 1e-9 * beta, 1e-4 * beta])
+                        teams = [[[6.0 * beta / n_, sg, f"l{i}_{j}"] for j in range(n_)] for i in range(2)]
+                        case = dict(model=m_, cfg=cfg, teams=teams, sel=None, vals=None, call={})
+                        yield "pd", dict(case=case, meta=dict(regime="vanishing_sigma", k=2), perm=[1, 0],
+                                         pperm=[list(range(n_)), list(range(n_))], who=[0, 0], step0=0.1)
 
 
 def probe_pd(ctx, payload):
